@@ -52,10 +52,24 @@ type ByteSlice struct {
 	// Resliced: obtained by x[lo:hi] from another opaque []byte, i.e. it shares that slice's
 	// backing array (possibly with spare capacity). Appending to it may write through.
 	Resliced bool
+	// Buf identifies the backing array of an opaque []byte that the engine saw being allocated
+	// (nil: unknown provenance). AtStart: the slice begins at the first byte of that array.
+	// Together they let append onto a re-sliced x[:0] write through to every other live slice
+	// of the same array (see appendThrough).
+	Buf     *byteBuf
+	AtStart bool
 	// Vol / Epoch: the slice points into a bufio.Reader's internal buffer (result of ReadLine);
 	// bufio documents it as valid only until the next read on that reader.
 	Vol   *readerState
 	Epoch int
+}
+
+// byteBuf is the identity of one backing array of an opaque []byte. Cap is its capacity: an
+// arbitrary value not below the length it was allocated with (the allocator's choice).
+type byteBuf struct {
+	id   int
+	born *Term // the bytes it was allocated for
+	cap  *Term // created when first needed
 }
 
 type ByteArr struct {
